@@ -279,7 +279,7 @@ pub fn observe(_ctx: &Ctx, st: &mut Stats, rj: &RJob, widths: Option<&Widths>) {
             }
         }
     }
-    let svg = match adapter::guarded(|| rj.spec.svg_builder().to_str(&qr)) {
+    let svg = match adapter::guarded(|| rj.spec.svg_builder_for(Some(&qr)).to_str(&qr)) {
         Ok(s) => s,
         Err(p) => {
             st.violation(ID, "render-panic", p, rj.to_json());
